@@ -15,35 +15,47 @@ Definition accepted (i : val) : Z + wreq :=
   | VL [VZ 3; VL ps] => match all_some (map dec_pair ps) with Some fs => front_spdy fs | None => inl 0 end
   | _ => inl 0
   end.
+(* Request.write (after fixes 4b1c... see known_findings/C25.txt) writes nothing and returns an error when
+   the method is not a token, the request-target has SP/CTL, Host has CR/LF or a header name is not a token *)
 Definition run_C25 (i : val) : val :=
   match accepted i with
-  | inr r => VL [VZ 0; VB (write_request r)]
-  | inl 0 => VErr 0
-  | inl c => VL [VZ c; VB []]
+  | inr r => if safe_request r then VL [VZ 0; VB (write_request r)] else VL [VZ 2; VB []]
+  | inl c => if c =? 0 then VErr 0
+             else if c =? 98 then VL [VZ 98; VB []]
+             else if c =? 2 then VL [VZ 2; VB []] else VL [VZ 1; VB []]
   end.
+Definition not_modelled (i : val) : bool :=
+  match accepted i with inl c => c =? 98 | inr _ => false end.
 (* inputs outside the modelled request-target classes (code 98) are not compared *)
-Definition agree_C25 (i o : val) : bool :=
-  match accepted i with
-  | inl 98 => true
-  | _ => val_eqb (run_C25 i) o
-  end.
-(* THE PROPERTY: whatever was written parses, with the strict reference parser, as exactly one request,
-   and that request is the accepted one (method, target, Host, forwarded fields with sanitised values, body). *)
+Definition agree_C25 (i o : val) : bool := not_modelled i || val_eqb (run_C25 i) o.
+(* THE PROPERTY: either nothing was written (frontend rejected the request, or Request.Write refused / failed
+   before or while writing: codes 1, 2), or what was written parses, with the strict reference parser, as
+   exactly one request, and that request is the accepted one (method, target, Host, forwarded fields with
+   sanitised values, body). *)
 Definition prop_C25 (i o : val) : bool :=
+  not_modelled i ||
   match o with
-  | VL [VZ 0; VB out] =>
-    match accepted i with
-    | inr r => match strict_parse out with Some q => sreq_eqb q (normalize r) | None => false end
-    | inl 98 => true
-    | inl _ => false
-    end
-  | VL [VZ 1; VB []] => true
-  | VL [VZ 2; VB []] => true
+  | VL [VZ c; VB out] =>
+    if c =? 0 then
+      match accepted i with
+      | inr r => match strict_parse out with Some q => sreq_eqb q (normalize r) | None => false end
+      | inl _ => false
+      end
+    else ((c =? 1) || (c =? 2)) && match out with [] => true | _ => false end
   | _ => false
   end.
-(* known-finding classes: frontend * 10 + unsafe component (1 method, 2 target, 3 host, 4 field name) *)
-Definition kf_C25 (i : val) : Z :=
-  match i, accepted i with
-  | VL (VZ f :: _), inr r => let c := unsafe_component r in if c =? 0 then 0 else f * 10 + c
-  | _, _ => 0
+(* all former known-finding classes are repaired *)
+Definition kf_C25 (i : val) : Z := 0.
+(* well-formed inputs: a well-shaped value whose accepted request (if any) has a body the model can frame:
+   none, Content-Length n with n bytes (0 < n < 10^80), or chunks shorter than 16^16 bytes *)
+Definition body_wf (b : wbody) : bool :=
+  match b with
+  | WNone => true
+  | WLen n d => (0 <? n) && (n <? 10 ^ 80) && (blen d =? n)
+  | WChunked cs => forallb (fun d => blen d <? 16 ^ 16) cs
+  end.
+Definition wf_C25 (i : val) : bool :=
+  match accepted i with
+  | inr r => body_wf (w_body r)
+  | inl c => negb (c =? 0)
   end.
